@@ -66,7 +66,8 @@ REQUIRED = ['forwards', 'streams_compared', 'bytes_compared',
             'close_propagation_checked', 'permission_decisions',
             'refusals_judged', 'census_checked', 'cut_cases', 'socks_cases',
             'unix_cases', 'early_data_cases', 'pairings_checked',
-            'cancel_checked', 'decoy_checked', 'hostile_socks']
+            'cancel_checked', 'decoy_checked', 'hostile_socks',
+            'extra_listeners', 'implicit_release_cases']
 BUDGET_S = {'quick': 300, 'thorough': 3400}
 CASE_TIMEOUT_S = 60
 
@@ -94,13 +95,14 @@ def gen_cases(tier, seed):
                       'pieces': 1, 'first_eof': 'client',
                       'order': 'concurrent', 'gate': 0, 'cut': 'before_reply',
                       'cut_mode': 's2c', 'nconn': 1, 'cancel': False,
+                      'nlisten': 1, 'explicit_close': False,
                       'chunk': 'all', 'socks_bad': None, 'cseed': 1})
     while len(cases) < n:
         kind = rng.choice(KINDS)
         case = {
             'kind': kind, 'perm': rng.choice(PERMS),
-            'up': rng.choice([0, 1, 100, 70000, 300000]),
-            'down': rng.choice([0, 1, 100, 70000, 300000]),
+            'up': rng.choice([0, 1, 100, 70000, 300000, 300000, 1500000]),
+            'down': rng.choice([0, 1, 100, 70000, 300000, 300000, 1500000]),
             'pieces': rng.choice([1, 3, 10]),
             'first_eof': rng.choice(['client', 'client', 'dest', 'dest',
                                      'client_close', 'dest_close',
@@ -112,6 +114,8 @@ def gen_cases(tier, seed):
             'cut_mode': rng.choice(['both', 'c2s', 's2c']),
             'nconn': rng.choice([1, 1, 2, 4]),
             'cancel': rng.random() < 0.25,
+            'nlisten': rng.choice([1, 1, 2, 3]),
+            'explicit_close': rng.random() < 0.3,
             'chunk': rng.choice(['all', 'record', 'random']),
             'socks_bad': None,
             'cseed': rng.randrange(1 << 30)}
@@ -506,6 +510,42 @@ def run_case(case):
                 info['forward_error'] = repr(exc)[:100]
                 listener = None
 
+            # more listeners of the same kind on the same connection (dynamic
+            # ports / distinct paths); they carry no data, they only have to
+            # go away with the connection
+            extra_listeners = []
+            if listener is not None and not st['cut']:
+                for k in range(case['nlisten'] - 1):
+                    xp = os.path.join(tmp, f'listen{k}.sock')
+                    try:
+                        if kind == 'local':
+                            x = await conn.forward_local_port(
+                                '127.0.0.1', 0, '127.0.0.1', daddr)
+                        elif kind == 'local_unix':
+                            x = await conn.forward_local_path(xp, daddr)
+                        elif kind == 'local_port_to_path':
+                            x = await conn.forward_local_port_to_path(
+                                '127.0.0.1', 0, daddr)
+                        elif kind == 'local_path_to_port':
+                            x = await conn.forward_local_path_to_port(
+                                xp, '127.0.0.1', daddr)
+                        elif kind == 'remote':
+                            x = await asyncio.wait_for(
+                                conn.forward_remote_port(
+                                    '127.0.0.1', 0, '127.0.0.1', daddr), 60)
+                        elif kind == 'remote_unix':
+                            x = await asyncio.wait_for(
+                                conn.forward_remote_path(xp, daddr), 60)
+                        else:
+                            x = await conn.forward_socks('127.0.0.1', 0)
+                        extra_listeners.append(x)
+                    except (asyncssh.Error, asyncssh.ChannelListenError,
+                            OSError, asyncio.TimeoutError) as exc:
+                        if not st['cut']:
+                            bad('permitted_forward_refused',
+                                f'{kind}: additional listener {k}: {exc!r}')
+                mon['extra_listeners'] += len(extra_listeners)
+
             if unix_dest or unix_listen:
                 mon['unix_cases'] += 1
 
@@ -760,12 +800,17 @@ def run_case(case):
                 do_cut()
                 await env.settle()
 
-            # ---- tear down and census
-            if listener is not None:
-                try:
-                    listener.close()
-                except Exception:
-                    pass
+            # ---- tear down and census: mostly the listeners are left to the
+            # connection, which has to release them when it ends
+            if case['explicit_close']:
+                for x in [listener] + extra_listeners:
+                    if x is not None:
+                        try:
+                            x.close()
+                        except Exception:
+                            pass
+            else:
+                mon['implicit_release_cases'] += 1
             conn.close()
             try:
                 await asyncio.wait_for(conn.wait_closed(), 60)
